@@ -147,7 +147,11 @@ type rawEntry struct {
 // auditNodes scans every 's' key of the tree's database view.
 // Result: an[<v>.<n>=<E|R:v.n|N:body>;...] sorted by (v, n) with nonce 0 printed as 1
 // (a root re-keyed by pruning), plus counts of unknown keys.
-func (s *Sys) auditNodes() string {
+// With norm=false ("audit phys") the nonce of the KEYS is printed as stored; references (root
+// references and child references) are printed with nonce 0 as 1 in both modes: whether the code
+// writes a reference to a re-keyed root as (v,1) or (v,0) depends on the node cache (the cached
+// object is re-keyed in place); both forms resolve to the same node.
+func (s *Sys) auditNodes(norm bool) string {
 	it, err := s.db.Iterator(nil, nil)
 	if err != nil {
 		return "err"
@@ -189,7 +193,7 @@ func (s *Sys) auditNodes() string {
 					desc = "N:" + body
 				}
 			}
-			if n == 0 {
+			if n == 0 && norm {
 				n = 1
 			}
 			ents = append(ents, rawEntry{v, n, desc})
@@ -207,6 +211,9 @@ func (s *Sys) auditNodes() string {
 	parts := make([]string, len(ents))
 	for i, e := range ents {
 		parts[i] = fmt.Sprintf("%d.%d=%s", e.v, e.n, e.s)
+	}
+	if !norm {
+		return fmt.Sprintf("ap[%s]other=%d", strings.Join(parts, ";"), other)
 	}
 	return fmt.Sprintf("an[%s]other=%d", strings.Join(parts, ";"), other)
 }
